@@ -41,6 +41,8 @@ type soundMount struct {
 	// where the custom constraints are registered: "parent" (the serving app only), "sub" (the
 	// mounted app only), "both"
 	ConsOn string `json:"custom_constraints_on"`
+	// Interleaved: the mounted app registers its constraints in turns with routes
+	Interleaved bool `json:"constraints_and_routes_registered_in_turns"`
 }
 
 // literalTwin replaces one parameter token by the literal spelling of its own pattern text
@@ -156,7 +158,7 @@ func genSoundCase(r *gen.Rand) *soundCase {
 	if r.Chance(1, 4) {
 		// registered on a sub-app mounted by the serving app
 		sc.Mount = &soundMount{Prefix: gen.Pick(r, []string{"/", "/", "/m", "/Mnt", "/m/"}), SubCaseSensitive: r.Bool(), SubStrict: r.Bool(),
-			ConsOn: gen.Pick(r, []string{"parent", "sub", "both"})}
+			ConsOn: gen.Pick(r, []string{"parent", "sub", "both"}), Interleaved: r.Bool()}
 		sc.RegPat = sc.Pat
 		eff := append([]tok(nil), toks...)
 		eff[0].Lit = strings.TrimRight(sc.Mount.Prefix, "/") + eff[0].Lit
@@ -302,7 +304,18 @@ func runSound(e *ev.Env) {
 			if p == "" || p[0] != '/' {
 				p = "/" + p
 			}
-			if sc.Cfg.Unescape && len(p) > 1 && r.Chance(1, 3) {
+			if sc.Cfg.Unescape && r.Chance(1, 3) {
+				// every non-ASCII byte percent-encoded, as clients send them
+				var sb strings.Builder
+				for i := 0; i < len(p); i++ {
+					if p[i] >= 0x80 {
+						fmt.Fprintf(&sb, "%%%02X", p[i])
+					} else {
+						sb.WriteByte(p[i])
+					}
+				}
+				p = sb.String()
+			} else if sc.Cfg.Unescape && len(p) > 1 && r.Chance(1, 3) {
 				// percent-encode one byte (not a slash): with UnescapePath the handler sees the decoded path
 				i := r.Range(1, len(p)-1)
 				if p[i] != '/' && p[i] != '%' && p[i] != '+' {
@@ -341,17 +354,54 @@ func checkSound(e *ev.Env, c *ev.Case, sc *soundCase, paths []string) {
 	}
 	// target: the app the route is registered on
 	target := app
+	var lateCons []fiber.CustomConstraint // registered on the mounted app after the judged route
 	regText := sc.Pat.String()
 	if sc.Mount != nil {
 		subCfg := sc.Cfg
 		subCfg.CaseSensitive, subCfg.Strict = sc.Mount.SubCaseSensitive, sc.Mount.SubStrict
 		target = subCfg.NewApp()
 		regText = sc.RegPat.String()
+		// the serving app has a custom constraint of its own in any case
+		app.RegisterCustomConstraint(predConstraint{"parentOwn", func(v string) bool { return v != "" }})
 		if sc.Mount.ConsOn != "sub" {
 			registerAll(app)
 		}
 		if sc.Mount.ConsOn != "parent" {
-			registerAll(target)
+			if sc.Mount.Interleaved {
+				// constraints and routes registered in turns on the mounted app: three constraints,
+				// a route naming one of them, then the remaining constraints (first the ones the judged
+				// pattern names), then — below — the judged route
+				for _, n := range []string{"filler1", "filler2", "filler3"} {
+					target.RegisterCustomConstraint(predConstraint{n, func(v string) bool { return len(v) < 3 }})
+				}
+				target.Get("/zz-filler/:f<filler2>", func(cx fiber.Ctx) error { return cx.Next() })
+				used := map[string]bool{}
+				for _, t := range sc.Pat.Toks {
+					for _, cn := range t.Cons {
+						used[cn.Kind] = true
+					}
+				}
+				var first, rest []fiber.CustomConstraint
+				all := []fiber.CustomConstraint{evenConstraint{}, lowerConstraint{}, upperConstraint{}}
+				if sc.Ovr {
+					for _, o := range overrideCatalogue {
+						all = append(all, o)
+					}
+				}
+				for _, cc := range all {
+					if used[cc.Name()] {
+						first = append(first, cc)
+					} else {
+						rest = append(rest, cc)
+					}
+				}
+				for _, cc := range first {
+					target.RegisterCustomConstraint(cc)
+				}
+				lateCons = rest
+			} else {
+				registerAll(target)
+			}
 		}
 	} else {
 		registerAll(app)
@@ -386,6 +436,9 @@ func checkSound(e *ev.Env, c *ev.Case, sc *soundCase, paths []string) {
 			reg(sc.Neigh.String(), pass)
 		}
 		reg(regText, h)
+		for _, cc := range lateCons {
+			target.RegisterCustomConstraint(cc)
+		}
 		if sc.Neigh != nil && !sc.NeighFirst {
 			reg(sc.Neigh.String(), pass)
 		}
@@ -481,7 +534,7 @@ func checkSound(e *ev.Env, c *ev.Case, sc *soundCase, paths []string) {
 					if cn.Ovr {
 						kind += "-overridden-by-custom-constraint"
 					}
-					if sc.Mount != nil {
+					if custom := cn.Ovr || cn.Kind == "even" || cn.Kind == "lower" || cn.Kind == "Upper"; custom && sc.Mount != nil {
 						kind += "|custom-constraints-registered-on-" + sc.Mount.ConsOn
 					}
 					e.Violation(c, "sound|constraint-violated|"+kind+"|"+class,
